@@ -3,6 +3,8 @@ package poolrig
 import (
 	"sort"
 
+	"verifharness/vh"
+
 	"go.sia.tech/core/consensus"
 	"go.sia.tech/core/types"
 	"verifharness/chainx"
@@ -113,4 +115,42 @@ func SortedKeys(m map[int]bool) []int {
 	}
 	sort.Ints(out)
 	return out
+}
+
+// CorruptProof damages the Merkle proof or the leaf index of one confirmed input of one transaction
+// of the set: a flipped hash, a neighbouring leaf index, an extended proof, a truncated proof.
+func CorruptProof(rng *vh.RNG, set []types.V2Transaction) (how string, ok bool) {
+	for k := 0; k < 8; k++ {
+		t := &set[rng.Intn(len(set))]
+		if len(t.SiacoinInputs) == 0 {
+			continue
+		}
+		in := &t.SiacoinInputs[rng.Intn(len(t.SiacoinInputs))]
+		se := &in.Parent.StateElement
+		if se.LeafIndex == types.UnassignedLeafIndex {
+			continue
+		}
+		switch rng.Intn(4) {
+		case 0:
+			if len(se.MerkleProof) == 0 {
+				continue
+			}
+			se.MerkleProof = append([]types.Hash256(nil), se.MerkleProof...)
+			se.MerkleProof[rng.Intn(len(se.MerkleProof))][3] ^= 0x40
+			return "flipped-hash", true
+		case 1:
+			se.LeafIndex ^= 1
+			return "wrong-leaf-index", true
+		case 2:
+			se.MerkleProof = append(append([]types.Hash256(nil), se.MerkleProof...), types.Hash256{7})
+			return "extended-proof", true
+		default:
+			if len(se.MerkleProof) == 0 {
+				continue
+			}
+			se.MerkleProof = append([]types.Hash256(nil), se.MerkleProof[:len(se.MerkleProof)-1]...)
+			return "truncated-proof", true
+		}
+	}
+	return "", false
 }
